@@ -567,6 +567,16 @@ func c21Run(cs c21Case, w *syntax.Word, d *c21PE, literal bool) string {
 		env := cs.st.env()
 		cfg := &expand.Config{Env: env, NoUnset: cs.nounset}
 		tail := ""
+		// what another holder of the variable (the parent shell of a subshell, which shares the
+		// Variable values) would still see after an assigning expansion: the slices and the map that
+		// were in the environment before must not be written to
+		before := env.m[d.name]
+		wantList := append([]string{}, before.List...)
+		wantIdx := append([]int{}, before.Indexes...)
+		wantMap := map[string]string{}
+		for k, v := range before.Map {
+			wantMap[k] = v
+		}
 		if literal {
 			s, err := expand.Literal(cfg, w)
 			if err != nil {
@@ -587,6 +597,26 @@ func c21Run(cs c21Case, w *syntax.Word, d *c21PE, literal bool) string {
 		}
 		if c21IsAssign(d) {
 			tail = " | " + c21VarOf(env.Get(d.name))
+			shared := "P0"
+			for i := range wantList {
+				if before.List[i] != wantList[i] {
+					shared = "P1" // the old list was written in place
+				}
+			}
+			for i := range wantIdx {
+				if before.Indexes[i] != wantIdx[i] {
+					shared = "P1"
+				}
+			}
+			if len(before.Map) != len(wantMap) {
+				shared = "P1"
+			}
+			for k, v := range wantMap {
+				if bv, ok := before.Map[k]; !ok || bv != v {
+					shared = "P1"
+				}
+			}
+			tail += " " + shared
 		}
 		out += tail
 	})
@@ -862,6 +892,81 @@ func c21Normalise(cs c21Case, d *c21PE, out string) string {
 	fs := strings.Split(l[i+1:len(l)-1], "><")
 	sort.Strings(fs)
 	return l[:i] + "<" + strings.Join(fs, "><") + ">\n"
+}
+
+// ---------------------------------------------------------------------------------------------
+// multi-step programs: an assigning expansion runs in a child context (or in the parent, and a child
+// looks), then the parent's state is expanded
+
+var c21ProgCtx = []string{"sub", "cmdsub", "pipe", "procsub", "parent"}
+
+func (cs c21Case) progDump() string {
+	switch cs.st.vars["x"].kind {
+	case 'i':
+		return "p \"${x[@]}\"; p \"${!x[@]}\"; p \"${x[1]:-d}\" \"${#x[1]}\" \"${x[*]}\" \"${x-U}\"\n"
+	case 'a':
+		return "p \"${x[k]-U}\" \"${x[0]-U}\" \"${x[a]-U}\" \"${x[zz]-U}\" \"${#x[@]}\"\n"
+	}
+	return "p \"${x-U}\"; p \"${x[@]}\"\n"
+}
+
+func (cs c21Case) progScript(ctx string) string {
+	var sb strings.Builder
+	sb.WriteString(c21Prelude)
+	for _, n := range cs.st.names {
+		sb.WriteString(cs.st.vars[n].scriptDecl(n))
+	}
+	word := `"` + cs.src + `"`
+	dump := cs.progDump()
+	switch ctx {
+	case "sub":
+		sb.WriteString("( : " + word + " )\n")
+	case "cmdsub":
+		sb.WriteString(": \"$( : " + word + " )\"\n")
+	case "pipe":
+		sb.WriteString(": " + word + " | :\n")
+	case "procsub":
+		sb.WriteString(": <( : " + word + " )\n")
+	case "parent":
+		sb.WriteString(": " + word + "\n( " + strings.TrimSuffix(dump, "\n") + " )\n")
+	}
+	sb.WriteString(dump)
+	sb.WriteString(": " + word + "\n")
+	sb.WriteString(dump)
+	return sb.String()
+}
+
+func c21ProgSearch(c *Ctx, cs c21Case, ctx string) c21ShRes {
+	script := cs.progScript(ctx)
+	run := func() (ShellResult, ShellResult, string) {
+		bs, ok := c21Bash(c, script)
+		if !ok {
+			return bs, ShellResult{}, "oracle-unavailable"
+		}
+		in := runInterp(c, syntax.LangBash, script)
+		if in.TimedOut {
+			in = runInterp(c, syntax.LangBash, script)
+			if in.TimedOut {
+				return bs, in, "interp-timeout"
+			}
+		}
+		return bs, in, ""
+	}
+	differ := func(bs, in ShellResult) bool {
+		return in.Panic != "" || (bs.Status != 0) != (in.Status != 0 || in.Err != "") || in.Stdout != bs.Stdout
+	}
+	bs, in, skip := run()
+	if skip == "" && differ(bs, in) {
+		bs, in, skip = run()
+	}
+	if skip != "" {
+		return c21ShRes{skipped: skip}
+	}
+	if !differ(bs, in) {
+		return c21ShRes{}
+	}
+	return c21ShRes{fail: true, what: fmt.Sprintf("program (%s):\n%s interp gives %q status=%d %s%s, bash gives %q status=%d",
+		ctx, strings.TrimPrefix(script, c21Prelude), in.Stdout, in.Status, in.Err, in.Panic, bs.Stdout, bs.Status)}
 }
 
 type c21ShRes struct {
@@ -1376,7 +1481,71 @@ func c21IsRemoveSrc(src string) bool {
 	return !strings.ContainsAny(src[:i], "/:@-=?+^,") && strings.ContainsAny(src[i:], "\\\"'")
 }
 
+// c21GenAssignCase: `=` / `:=` on scalars, array elements (set, null, missing, beyond the end, in holes
+// of sparse arrays) and associative elements.
+func c21GenAssignCase(r *Rand) c21Case {
+	st := c21GenState(r)
+	vals := []string{"", "", "v", "", "a b"}
+	switch r.Intn(4) {
+	case 0:
+		st.vars["x"] = c21GenVar(r, "ues")
+	case 1:
+		n := 1 + r.Intn(4)
+		l := make([]string, n)
+		for i := range l {
+			l[i] = r.Pick(vals)
+		}
+		st.vars["x"] = c21Var{kind: 'i', list: l}
+	case 2:
+		n := 1 + r.Intn(3)
+		l := make([]string, n)
+		idx := make([]int, n)
+		k := r.Intn(2)
+		for i := range l {
+			l[i] = r.Pick(vals)
+			idx[i] = k
+			k += 1 + r.Intn(3)
+		}
+		v := c21Var{kind: 'i', list: l, idx: idx}
+		dense := true
+		for i, x := range idx {
+			if x != i {
+				dense = false
+			}
+		}
+		if dense {
+			v.idx = nil
+		}
+		st.vars["x"] = v
+	default:
+		v := c21Var{kind: 'a', keys: []string{}, list: []string{}}
+		for _, k := range []string{"k", "0", "a"} {
+			if r.Chance(60) {
+				v.keys = append(v.keys, k)
+				v.list = append(v.list, r.Pick(vals))
+			}
+		}
+		st.vars["x"] = v
+	}
+	param := "x"
+	switch st.vars["x"].kind {
+	case 'i':
+		if r.Chance(85) {
+			param = "x[" + r.Pick([]string{"0", "1", "2", "3", "5", "-1"}) + "]"
+		}
+	case 'a':
+		if r.Chance(85) {
+			param = "x[" + r.Pick([]string{"k", "0", "a", "zz"}) + "]"
+		}
+	}
+	op := r.Pick([]string{":=", ":=", "="})
+	return c21Case{st: st, src: "${" + param + op + r.Pick([]string{"filled", "w", "a b", ""}) + "}", quoted: r.Chance(60)}
+}
+
 func c21GenCase(r *Rand) c21Case {
+	if r.Chance(5) {
+		return c21GenAssignCase(r)
+	}
 	st := c21GenState(r)
 	src := c21GenForm(r, st)
 	if len(src) > 4 && c21IsRemoveSrc(src) && r.Chance(65) {
@@ -1744,6 +1913,7 @@ func c21(c *Ctx) {
 	type shCase struct {
 		cs      c21Case
 		witness string
+		ctx     string // "" = one expansion; else a multi-step program in that child context
 	}
 	var shCases []shCase
 	c21CaseTab(c, 0, 255)
@@ -1757,12 +1927,19 @@ func c21(c *Ctx) {
 		switch f[0] {
 		case "sh":
 			if cs, ok := c21ParseWitness(f[1:]); ok {
-				shCases = append(shCases, shCase{cs, l})
+				shCases = append(shCases, shCase{cs, l, ""})
 				c21RunCase(c, cs)
 			}
 		case "f":
 			if cs, ok := c21ParseWitness(f[1:]); ok {
 				c21RunCase(c, cs)
+			}
+		case "pg":
+			if len(f) > 3 {
+				if cs, ok := c21ParseWitness(f[2:]); ok {
+					shCases = append(shCases, shCase{cs, l, f[1]})
+					c21RunCase(c, cs)
+				}
 			}
 		case "rm":
 			if len(f) == 5 {
@@ -1806,21 +1983,46 @@ func c21(c *Ctx) {
 			ok = true
 		}
 		if ok {
-			shCases = append(shCases, shCase{cs, "sh " + cs.witness()})
+			shCases = append(shCases, shCase{cs, "sh " + cs.witness(), ""})
+		}
+	}
+	// multi-step programs with an assigning expansion in a child context
+	npg := nsh / 6
+	rp := c.R.Fork("prog")
+	for i := 0; i < npg; i++ {
+		for try := 0; try < 30; try++ {
+			cs := c21GenAssignCase(rp)
+			cs.quoted = true
+			_, d, perr := c21Parse(cs.src, true, &cs.st)
+			if perr != "" || c21Excluded(cs, d) != "" {
+				continue
+			}
+			ctx := rp.Pick(c21ProgCtx)
+			shCases = append(shCases, shCase{cs, "pg " + ctx + " " + cs.witness(), ctx})
+			break
 		}
 	}
 	workers := 4
 	if c.Thorough() {
 		workers = 2
 	}
-	results := parallelMap(len(shCases), workers, func(i int) c21ShRes { return c21Search(c, shCases[i].cs) })
+	results := parallelMap(len(shCases), workers, func(i int) c21ShRes {
+		if shCases[i].ctx != "" {
+			return c21ProgSearch(c, shCases[i].cs, shCases[i].ctx)
+		}
+		return c21Search(c, shCases[i].cs)
+	})
 	for i, sc := range shCases {
 		r := results[i]
 		if r.skipped != "" {
 			c.Case("sh\x00"+sc.witness, false, r.skipped)
 			continue
 		}
-		c.Case("sh\x00"+sc.witness, true, "bash-compared")
+		if sc.ctx != "" {
+			c.Case("pg\x00"+sc.witness, true, "bash-compared", "program", "ctx="+sc.ctx)
+		} else {
+			c.Case("sh\x00"+sc.witness, true, "bash-compared")
+		}
 		if r.fail {
 			c.Fail(sc.witness, r.what)
 		}
